@@ -194,6 +194,8 @@ def build_case(c):
             mode_proj_order=a["mode_proj_order"],
             eps=a["eps"],
             max_iteration_optimization=a.get("max_iteration", 100),
+            # cost cap: the default of 100000 projection sweeps per optimisation step can take minutes for gates
+            max_iteration_proj_physical=a.get("max_iteration_proj", 200),
         ),
     )
     return LossMinimizationEstimator(), loss, algo
